@@ -210,6 +210,21 @@ def gen_plan(rng):
         window = rng.choice([100, 4096])
         fault = {'kind': 'none'}
 
+    if rng.chance(6):
+        # SFTP requests in flight on one channel while the application's
+        # callback on another channel of the same connection raises
+        chans[:0] = [
+            {'kind': 'sftp', 'req': 'exec',
+             'c': [[rng.choice(['stat', 'read', 'listdir', 'par', 'write'])]
+                   for _ in range(rng.between(2, 6))],
+             's': [], 'start_delay': 0, 'via': 'conn', 'inner_up': True},
+            {'kind': 'cb', 'req': 'exec', 'c': [['y']],
+             's': [['w', rng.choice([1, 1000])], ['y'], ['w', 10]],
+             'start_delay': rng.choice([0, 1, 3]), 'via': 'conn',
+             'inner_up': True}]
+        srv_kinds = ['proc', 'cb']
+        fault = {'kind': 'app_exc', 'side': 'c', 'after': rng.below(3)}
+
     return {
         'drbg': rng.below(1 << 30),
         'profile': {
